@@ -621,6 +621,8 @@ class STensor:
 
     def __setitem__(self, key, value) -> None:
         idx, shape = self._index(key)
+        if isinstance(value, (tuple, list)):
+            value = STensor.from_nested(list(value))  # numpy / torch accept sequences on the right-hand side
         if isinstance(value, STensor):
             v = value.expand(shape) if tuple(value.shape) != tuple(shape) else value
             vals = v.flat()
